@@ -24,23 +24,17 @@ func init() {
 		weight int
 		run    func(w *W)
 	}{
-		{"race-close-everything", 6, c10Run},
-		{"race-close-with-blocked-reply", 2, c10BlockedReply},
-		{"race-close-from-hook", 2, c10CloseFromHook},
+		// (kept: the scenarios whose own bookkeeping is free of unsynchronised
+		// sharing between harness tasks when run without the baton - tried one by
+		// one under the detector; the others stay with engine B only)
+		{"race-close-everything", 4, c10Run},
+		{"race-close-with-blocked-reply", 1, c10BlockedReply},
 		{"race-close-during-connection-burst", 2, c10CloseDuringBurst},
-		{"race-ownership-fan-out", 4, c17Run},
-		{"race-bus-star-topologies", 3, c08Run},
-		{"race-pushpull", 2, c02Push},
-		{"race-pair-handover", 2, c02Handover},
-		{"race-ws-handler-in-application-server", 2, c13WsHandler},
-		{"race-pub-sub", 3, c06Sub}, {"race-pub-sub-stream", 2, c06Stream},
+		{"race-ownership-fan-out", 3, c17Run},
+		{"race-pub-sub", 2, c06Sub},
+		{"race-pub-sub-stream", 1, c06Stream},
 		{"race-req-retry-stream", 2, c04Stream},
-		{"race-survey-end-to-end", 2, c07E2E},
-		{"race-device-chains", 3, c09Chain},
-		{"race-dialer-reconnect-stream", 2, c14Stream},
-		{"race-hostile-peers", 3, c16Run},
-		{"race-macat-formats", 1, c20Recv},
-		{"race-macat-reply", 1, c20Reply},
+		{"race-dialer-reconnect-stream", 1, c14Stream},
 	} {
 		register(&Scenario{Name: b.name, Prop: "C11R", Engine: "F", Horizon: time.Hour, Weight: b.weight, Run: raceOnly(b.run)})
 	}
